@@ -190,6 +190,12 @@ type FollowResult struct {
 // stop (optional) marks additional instructions that end a path successfully (e.g. the
 // back edge target of a loop when the obligation is per-iteration).
 func MustFollow(fn *ssa.Function, start Point, isB func(ssa.Instruction) bool, stop func(ssa.Instruction) bool) FollowResult {
+	return MustFollowCut(fn, start, isB, stop, nil)
+}
+
+// MustFollowCut is MustFollow that never takes an edge of cut (edges known to be
+// infeasible under the premise of the obligation, e.g. those asserting its negation).
+func MustFollowCut(fn *ssa.Function, start Point, isB func(ssa.Instruction) bool, stop func(ssa.Instruction) bool, cut map[Edge]bool) FollowResult {
 	// deferred B registered before start: a Defer instruction satisfying isB in a block
 	// that dominates start.Block (or earlier in the same block).
 	for _, b := range fn.Blocks {
@@ -245,7 +251,7 @@ func MustFollow(fn *ssa.Function, start Point, isB func(ssa.Instruction) bool, s
 			continue
 		}
 		for _, succ := range s.b.Succs {
-			if seenTop[succ] {
+			if seenTop[succ] || cut[Edge{s.b, succ}] {
 				continue
 			}
 			seenTop[succ] = true
